@@ -37,7 +37,7 @@ def main():
             props = sorted(registry.CHECKS) if allc else [p for p in [meta["property"]] if p in registry.CHECKS]
             hits = []
             for p in props:
-                rr = subprocess.run([os.path.join(V, "check"), p], capture_output=True, text=True, env=dict(os.environ, SS_REPO=base), cwd=V)
+                rr = subprocess.run([os.path.join(V, "check"), p], capture_output=True, text=True, env=dict(os.environ, SS_REPO=base, SS_EVIDENCE=os.path.join(scratch, "_ev")), cwd=V)
                 if rr.returncode == 1:
                     rules = [l.strip() for l in rr.stdout.splitlines() if l.startswith("  rule ")]
                     hits.append((p, sorted(set(x.split()[1] for x in rules))))
